@@ -98,8 +98,28 @@ fn gen(t: &mut Tape, _tier: Tier) -> Scenario {
                 let e = gen::draw_bytes(t, extra);
                 input.extend_from_slice(&e);
                 note = "header announcing a 4 GiB dictionary and 2^63 bytes".to_string();
+            } else if ep == EP_RAW_LZMA && src >= 7 {
+                // valid stream for a tiny dictionary: the circular window wraps
+                let dict = [1u64, 2, 3, 5, 16, 64, 300][t.below(7) as usize];
+                let b = gen_lzma_raw_dict(t, dict, 0, 3000);
+                input = b.payload.clone();
+                raw = RawSpec {
+                    lc: b.props.lc,
+                    lp: b.props.lp,
+                    pb: b.props.pb,
+                    dict: dict as u32,
+                    size: if b.marker { None } else { Some(b.expect.len() as u64) },
+                };
+                note = format!("valid stream, raw dictionary {}", dict);
             } else {
-                let b = if src == 3 { gen_long(t, 0) } else { gen_lzma(t, 0, 3000) };
+                let b = if src == 3 {
+                    gen_long(t, 0)
+                } else if src == 4 {
+                    // output of several laps of the smallest header dictionary
+                    gen_lzma(t, 0, 20_000)
+                } else {
+                    gen_lzma(t, 0, 3000)
+                };
                 input = if ep == EP_RAW_LZMA { b.payload.clone() } else { b.std_file() };
                 raw = RawSpec {
                     lc: b.props.lc,
